@@ -22,9 +22,14 @@ def py_welford(vs):
     return {"N": t.N, "get": t.get(), "mean": t.mean, "var": t.var, "std": t.std, "call": t()}
 
 
-def py_es(alpha, vs):
+def py_es(alpha, vs, built_with=None):
     from ixai.utils.tracker import ExponentialSmoothingTracker
-    t = ExponentialSmoothingTracker(alpha)
+    if built_with is None:
+        t = ExponentialSmoothingTracker(alpha)
+    else:
+        # the public attribute is tuned after construction, before the first value: the configured alpha is the tuned one
+        t = ExponentialSmoothingTracker(built_with)
+        t.alpha = alpha
     for v in vs:
         t.update(v)
     return {"N": t.N, "get": t.get(), "call": t()}
@@ -96,6 +101,15 @@ def es_fails(alpha, vs):
     for k in ("get", "call"):
         if core.canon(got[k]) != core.canon(want["get"]):
             return f"{k}={core.canon(got[k])} expected {core.canon(want['get'])}"
+    if vs:
+        other = Q(1, 4) if Fraction(alpha) != Fraction(1, 4) else Q(3, 4)
+        try:
+            got2 = py_es(alpha, vs, built_with=other)
+        except Exception as ex:
+            return f"ExponentialSmoothingTracker built with alpha={rs(other)} and tuned to {rs(alpha)} raised {core.err_kind(ex)}"
+        if got2["N"] != want["N"] or core.canon(got2["get"]) != core.canon(want["get"]):
+            return (f"built with alpha={rs(other)}, `alpha` set to {rs(alpha)} before the first value: get={core.canon(got2['get'])} N={got2['N']}, "
+                    f"the closed form for alpha={rs(alpha)} gives {core.canon(want['get'])}")
     return None
 
 
